@@ -122,6 +122,9 @@ pub struct Outcome {
 thread_local! {
     static LAST_PANIC: RefCell<Option<String>> = const { RefCell::new(None) };
 }
+pub fn last_panic() -> String {
+    LAST_PANIC.with(|p| p.borrow().clone()).unwrap_or_default()
+}
 pub fn install_panic_hook() {
     std::panic::set_hook(Box::new(|info| {
         let loc = info.location().map(|l| format!("{}:{}", l.file(), l.line())).unwrap_or_default();
@@ -132,6 +135,12 @@ pub fn install_panic_hook() {
         } else {
             String::new()
         };
+        // the message may quote strings from corrupted data that are not valid UTF-8 (see finding F15): sanitise
+        let msg = String::from_utf8_lossy(msg.as_bytes()).into_owned();
+        if (!loc.starts_with("/repo/") && !loc.contains("/.cargo/registry/")) || std::env::var("VERIF_SHOW_PANICS").is_ok() {
+            // a panic in the simulator's own code is a harness error and must be visible
+            eprintln!("HARNESS-PANIC at {loc}: {msg}");
+        }
         LAST_PANIC.with(|p| *p.borrow_mut() = Some(format!("{loc}: {msg}")));
     }));
 }
@@ -213,9 +222,29 @@ pub fn run(a: &RunArgs<'_>) -> Outcome {
             next.dedup();
             let has_dup = next.len() != raw_len;
             let (reqs, err) = decode_requests(&o.call_requests);
+            // A String that is not valid UTF-8 can only come from unchecked construction somewhere below
+            // (undefined behaviour by Rust's rules); report it as a crash-class outcome and keep the harness safe.
+            let bad_utf8 = std::str::from_utf8(o.error_message.as_bytes()).is_err();
+            let msg = if bad_utf8 { String::from_utf8_lossy(o.error_message.as_bytes()).into_owned() } else { o.error_message };
+            if bad_utf8 {
+                return Outcome {
+                    code: o.ret_code,
+                    msg: msg.clone(),
+                    data: o.data,
+                    next,
+                    next_raw_len: raw_len,
+                    next_has_dup: has_dup,
+                    reqs,
+                    reqs_decode_err: err,
+                    flags: (false, false, false),
+                    probes,
+                    peak_heap,
+                    panic: Some(format!("invalid-utf8-in-error-message: the returned error message is a String with invalid UTF-8 ({})", msg.chars().take(200).collect::<String>())),
+                };
+            }
             Outcome {
                 code: o.ret_code,
-                msg: o.error_message,
+                msg,
                 data: o.data,
                 next,
                 next_raw_len: raw_len,
